@@ -57,44 +57,54 @@ def w0 : World where
   symName := symName0
   ampKey k := k.take 1
   compKey k := k
+  -- two amplitudes with transitions ([r,1], [r,0]) and two without ([r,3], [r,2]); all four tie
+  -- under `ampKey` (as `A[0,-1/2,+1/2]` / `A[0,+1/2,-1/2]` do under the natural sort)
+  intensityAtoms r _ _ _ := [[r, 0], [r, 1], [r, 2], [r, 3]]
+  ampStr k := k
 
 /-! ### the unsound variants (one switch each) -/
 
-def aliasedVariant : Variant := ⟨true, true, false, true⟩
-def noResetVariant : Variant := ⟨false, false, false, true⟩
-def sharedVariant : Variant := ⟨false, true, true, true⟩
-def tiesVariant : Variant := ⟨false, true, false, false⟩
+def aliasedVariant : Variant := ⟨true, true, false, true, true⟩
+def noResetVariant : Variant := ⟨false, false, false, true, true⟩
+def sharedVariant : Variant := ⟨false, true, true, true, true⟩
+def tiesVariant : Variant := ⟨false, true, false, false, true⟩
+def missingUnsortedVariant : Variant := ⟨false, true, false, true, false⟩
 
 /-! ### histories -/
 
 /-- stable ids; default; stable ids again — one builder, DPD(1) -/
 def aliasHistory : List Op :=
   [ .newBuilder 0 [], .configure 0 (.align (.dpd 1)), .configure 0 (.stable (some [2, 3, 4])),
-    .formulate 0 [], .configure 0 (.stable none), .formulate 0 [],
-    .configure 0 (.stable (some [4, 3, 2])), .formulate 0 [] ]
+    .formulate 0 [] [], .configure 0 (.stable none), .formulate 0 [] [],
+    .configure 0 (.stable (some [4, 3, 2])), .formulate 0 [] [] ]
 
 /-- couplings on, formulate, couplings off, formulate; a fresh builder formulates the default -/
 def noResetHistory : List Op :=
-  [ .newBuilder 0 [], .configure 0 (.helCouplings true), .formulate 0 [],
-    .configure 0 (.helCouplings false), .formulate 0 [], .newBuilder 0 [], .formulate 1 [] ]
+  [ .newBuilder 0 [], .configure 0 (.helCouplings true), .formulate 0 [] [],
+    .configure 0 (.helCouplings false), .formulate 0 [] [], .newBuilder 0 [], .formulate 1 [] [] ]
 
 /-- configuring builder 0 between two formulate calls of builder 1 -/
 def sharedHistory : List Op :=
-  [ .newBuilder 0 [], .newBuilder 0 [], .formulate 1 [], .configure 0 (.helCouplings true),
-    .configure 0 (.scalarInitial true), .formulate 1 [] ]
+  [ .newBuilder 0 [], .newBuilder 0 [], .formulate 1 [] [], .configure 0 (.helCouplings true),
+    .configure 0 (.scalarInitial true), .formulate 1 [] [] ]
 
 /-- two builders of the un-relabelled reaction whose topology sets iterate in opposite orders
 (two hash seeds / two registration orders) -/
 def tiesHistory : List Op :=
-  [ .newBuilder 1 [1, 2], .newBuilder 1 [2, 1], .formulate 0 [1, 2], .formulate 1 [2, 1] ]
+  [ .newBuilder 1 [1, 2], .newBuilder 1 [2, 1], .formulate 0 [1, 2] [], .formulate 1 [2, 1] [] ]
+
+/-- two builders (two processes / hash seeds) whose `atoms(sp.Indexed)` sets iterate differently -/
+def missingHistory : List Op :=
+  [ .newBuilder 0 [], .newBuilder 0 [], .formulate 0 [] [[0, 0], [0, 1], [0, 2], [0, 3]],
+    .formulate 1 [] [[0, 3], [0, 1], [0, 2], [0, 0]] ]
 
 /-- two builders sharing reaction 0, operations interleaved, an eviction, a registration, an error -/
 def interleavedHistory : List Op :=
   [ .newBuilder 0 [2, 1], .newBuilder 0 [], .configure 0 (.align (.dpd 1)), .configure 1 (.align (.dpd 1)),
-    .configure 0 (.stable (some [2, 3, 4])), .formulate 0 [], .formulate 1 [2, 1],
-    .configure 1 (.scalarInitial true), .formulate 1 [], .evict 0, .formulate 0 [],
-    .register 1 1 [2, 1], .configure 0 (.align .axisAngle), .formulate 0 [], .configure 1 (.stable (some [3, 2, 4])),
-    .configure 1 (.scalarInitial false), .formulate 1 [] ]
+    .configure 0 (.stable (some [2, 3, 4])), .formulate 0 [] [], .formulate 1 [2, 1] [],
+    .configure 1 (.scalarInitial true), .formulate 1 [] [], .evict 0, .formulate 0 [] [],
+    .register 1 1 [2, 1], .configure 0 (.align .axisAngle), .formulate 0 [] [], .configure 1 (.stable (some [3, 2, 4])),
+    .configure 1 (.scalarInitial false), .formulate 1 [] [] ]
 
 /-! ### `OutputsPure` is decidable -/
 
@@ -102,7 +112,7 @@ def outputsPureB (v : Variant) (w : World) : State → List Op → Bool
   | _, [] => true
   | s, op :: rest =>
     (match op with
-      | .formulate i _ =>
+      | .formulate i _ _ =>
         match s.builders[i]? with
         | some b => decide ((step v w s op).2 = some (F w b.reaction b.user))
         | none => true
@@ -118,7 +128,7 @@ theorem outputsPureB_iff (v : Variant) (w : World) :
     simp only [outputsPureB, OutputsPure, Bool.and_eq_true, ih]
     refine and_congr_left' ?_
     cases op with
-    | formulate i order =>
+    | formulate i order atoms =>
       simp only []
       cases hb : s.builders[i]? with
       | none => simp
@@ -198,5 +208,6 @@ theorem symName0_injective : ∀ s t : Sym, symName0 s = symName0 t → s = t :=
 theorem w0_ok : WorldOK w0 where
   consistent r t₁ t₂ := agree_of_agreeB (topoMap0_consistent r t₁ t₂)
   names := symName0_injective
+  ampStrs _ _ h := h
 
 end Ampverif.C06.Witness
